@@ -90,18 +90,18 @@ class Probe:
             return self.orig(obj)
         hit = (obj == R.wire_names_cache_obj)
         self.log.append((id(obj), bool(hit)))
-        if hit:
-            cached = R.wire_names_cache
-            saved = (R.wire_names_cache_obj, R.wire_names_cache)
-            R.wire_names_cache_obj = None; R.wire_names_cache = None
-            try:
-                fresh = self.orig(obj)
-            finally:
-                R.wire_names_cache_obj, R.wire_names_cache = saved
-            if cached is None or [(id(k), v) for k, v in cached.items()] != [(id(k), v) for k, v in fresh.items()]:
-                self.bad.append({'object': obj.getFullPath(), 'cached': None if cached is None else sorted(cached.values())[:40],
-                                 'recomputed': sorted(fresh.values())[:40]})
-        return self.orig(obj)
+        ret = self.orig(obj)
+        # whatever getWireNames returned (hit or miss) must be what a recomputation from an empty cache gives
+        saved = (R.wire_names_cache_obj, R.wire_names_cache)
+        R.wire_names_cache_obj = None; R.wire_names_cache = None
+        try:
+            fresh = self.orig(obj)
+        finally:
+            R.wire_names_cache_obj, R.wire_names_cache = saved
+        if ret is None or [(id(k), v) for k, v in ret.items()] != [(id(k), v) for k, v in fresh.items()]:
+            self.bad.append({'object': obj.getFullPath(), 'hit': bool(hit), 'returned': None if ret is None else sorted(ret.values())[:40],
+                             'recomputed': sorted(fresh.values())[:40]})
+        return ret
 
 
 def call_request(gen, op, obj, cs):
@@ -293,7 +293,7 @@ class History:
                     self.violation('Verilog generation modified a circuit', {'modified_circuit': i, 'diff': L.snap_diff(x, y)}); break
             if self.fail: break
             if pr.bad:
-                self.violation('a wire-name cache hit returned something else than recomputation', {'hit': pr.bad[0]}); break
+                self.violation('getWireNames returned something else than recomputation from an empty cache', {'call': pr.bad[0]}); break
             attrs = set(vars(g).keys())
             if attrs != EXPECTED_SELF:
                 self.violation('the generator object carries state the model does not have', {'attributes': sorted(attrs)}, found_input=False); break
